@@ -70,6 +70,33 @@ structure Proc where
   /-- `dispositions`, `blocked_signals` (and the select mask of `Concurrent`) -/
   sys : Sys
   ppid : Nat := 1
+  /-- `/dev/tty` exists in the file system (not per-process state; carried here for convenience) -/
+  ttyAvail : Bool := false
+
+/-- `JobList` as far as a subshell can see it: the listed jobs (job number, identity, `is_owned`), the job
+    `$!` designates (`last_async_pid`), and a counter for fresh identities. All jobs of the sweep are running. -/
+structure Jobs where
+  list : List (Nat × Nat × Bool) := []
+  last : Option Nat := none
+  next : Nat := 0
+  deriving DecidableEq, Repr
+
+/-- the lowest free job number (slab index + 1) -/
+def Jobs.freeNumber (j : Jobs) : Nat :=
+  ((List.range (j.list.length + 1)).map (· + 1)).find? (fun n => !(j.list.any (·.1 == n))) |>.getD (j.list.length + 1)
+
+/-- `jobs.insert(job)` + `set_last_async_pid`: a new owned job becomes `$!` -/
+def Jobs.add (j : Jobs) : Jobs :=
+  { list := j.list ++ [(j.freeNumber, j.next, true)], last := some j.next, next := j.next + 1 }
+
+/-- `JobList::disown_all` -/
+def Jobs.disownAll (j : Jobs) : Jobs := { j with list := j.list.map fun e => (e.1, e.2.1, false) }
+
+/-- the `wait $!` of an asynchronous list that has finished removes its job -/
+def Jobs.removeLast (j : Jobs) : Jobs :=
+  match j.last with
+  | some u => { j with list := j.list.filter (·.2.1 ≠ u) }
+  | none => j
 
 /-- `VariableSet`: visible variables plus the positional parameters of the current regular context -/
 structure Variables where
@@ -84,8 +111,7 @@ structure Env where
   builtins : List String
   exitStatus : Nat
   functions : Assoc String
-  /-- `JobList`: the pids of the jobs and the last asynchronous pid -/
-  jobs : List Nat × Nat
+  jobs : Jobs
   mainPgid : Nat
   mainPid : Nat
   /-- `OptionSet`: the enabled options (sorted) -/
@@ -105,7 +131,7 @@ structure ForkEnvState where
   builtins : List String
   exitStatus : Nat
   functions : Assoc String
-  jobs : List Nat × Nat
+  jobs : Jobs
   mainPgid : Nat
   mainPid : Nat
   options : List String
@@ -122,7 +148,7 @@ def extractFromEnv (env : Env) : ForkEnvState × Env :=
      functions := env.functions, jobs := env.jobs, mainPgid := env.mainPgid, mainPid := env.mainPid,
      options := env.options, stack := env.stack, traps := env.traps, tty := env.tty,
      variables := env.variables, any := env.any },
-   { env with aliases := [], arg0 := "", builtins := [], functions := [], jobs := ([], 0), stack := [],
+   { env with aliases := [], arg0 := "", builtins := [], functions := [], jobs := {}, stack := [],
               traps := [], variables := { vars := [], params := [] }, any := [] })
 
 /-- `ForkEnvState::restore_into_env` -/
@@ -162,7 +188,7 @@ def Proc.forkFrom (copied : List (String × String)) (ppid : Nat) (parent : Proc
     sys := { disp := if isCopied copied "dispositions" then parent.sys.disp else fun _ => .default,
              blocked := if isCopied copied "blocked_signals" then parent.sys.blocked else fun _ => false,
              selectMask := parent.sys.selectMask },
-    ppid := ppid }
+    ppid := ppid, ttyAvail := parent.ttyAvail }
 
 /-- the code as it is -/
 def implCopied : List (String × String) := Generated.ForkMaps.processForkMap
@@ -194,7 +220,7 @@ def enterTraps (env : Env) (ignoreSigintSigquit keepStoppers : Bool) : Env :=
     Note that the options are NOT touched: the child keeps the parent's option set, `monitor` included. -/
 def subshellEntry (ignoreSigintSigquit keepStoppers : Bool) (env : Env) : Env :=
   let e1 := { env with stack := "Subshell" :: env.stack }
-  let e2 := { e1 with jobs := ([], e1.jobs.2) }
+  let e2 := { e1 with jobs := e1.jobs.disownAll }
   enterTraps e2 ignoreSigintSigquit keepStoppers
 
 /-- `Env::controls_jobs`: `monitor` is on and the shell is not itself a subshell -/
@@ -219,7 +245,7 @@ inductive Op where
   | optOn (o : String) | optOff (o : String) | shift | args (xs : List String)
   | cd (d : String) | umask (m : String) | trap (cond : Nat) (a : TrapAct)
   | fdw (n : Nat) (file : String) | fdr (n : Nat) | fdd (n m : Nat) | fdc (n : Nat)
-  | local (n v : String) | raise (sig : Nat)
+  | local (n v : String) | raise (sig : Nat) | bg | exit (n : Nat)
   deriving DecidableEq, Repr
 
 /-- sorted insertion into the list of enabled options -/
@@ -344,6 +370,24 @@ def exitShell (sh : Shell) (status : Nat) : Shell :=
     | none => []
   { sh with events := sh.events ++ evs, halted := some status }
 
+/-- `Env::get_tty`: `/dev/tty` is opened once, moved to the lowest free descriptor >= 10 with CLOEXEC and
+    remembered in `env.tty` -/
+def getTty (env : Env) : Env :=
+  if env.tty.isSome || !env.system.ttyAvail then env else
+  let fd := ((List.range 8).map (· + 10)).find? (fun n => (fdGet env.system.fds n).isNone) |>.getD 10
+  { env with tty := some fd,
+             system := { env.system with fds := fdPut env.system.fds fd { label := "tty", cloexec := true } } }
+
+/-- the `set` built-in after changing `monitor` outside a subshell ("reinitialize job control"): the shell is
+    not interactive, so the internal dispositions for the stop signals are *disabled*
+    (`update_internal_dispositions_for_stoppers`), and with `monitor` now on `ensure_foreground` opens the
+    terminal (`tcsetpgrp` itself changes nothing the property names) -/
+def monitorChanged (o : String) (env : Env) : Env :=
+  if o ≠ "monitor" || env.stack.contains "Subshell" then env else
+  let st := Trap.disableStoppers { sys := env.system.sys, traps := env.traps }
+  let e1 := { env with traps := st.traps, system := { env.system with sys := st.sys } }
+  if e1.options.contains "monitor" then getTty e1 else e1
+
 /-- the effect of one mutator on a live shell process -/
 def applyOpCore (sh : Shell) (op : Op) : Shell :=
   let env := sh.env
@@ -367,10 +411,12 @@ def applyOpCore (sh : Shell) (op : Op) : Shell :=
     -- a non-portable option name while `portable` is on is an error of the special built-in `set`: the shell
     -- exits with status 2 (the generator of the sweep never produces it)
     if env.options.contains "portable" && nonPortableOpts.contains o then { sh with halted := some 2 }
-    else { sh with env := { env with options := insertSorted o env.options } }
+    else { sh with env := monitorChanged o { env with options := insertSorted o env.options } }
   | .optOff o =>
     if env.options.contains "portable" && nonPortableOpts.contains o then { sh with halted := some 2 }
-    else { sh with env := { env with options := env.options.filter (· ≠ o) } }
+    else { sh with env := monitorChanged o { env with options := env.options.filter (· ≠ o) } }
+  | .bg => { sh with env := { env with jobs := env.jobs.add } }
+  | .exit _ => sh
   | .shift => { sh with env := { env with variables := { env.variables with params := env.variables.params.drop 1 } } }
   | .args xs => { sh with env := { env with variables := { env.variables with params := xs } } }
   | .cd d =>
@@ -413,15 +459,17 @@ def applyOp (sh : Shell) (op : Op) : Shell :=
   let st := opStatus sh.env op
   let r := applyOpCore sh op
   if r.halted.isSome then r
-  else if st ≠ 0 ∧ r.env.options.contains "errexit" then exitShell r st
-  else r
+  else match op with
+    | .exit n => exitShell r n            -- the `exit` built-in: EXIT trap, then the process ends
+    | _ => if st ≠ 0 ∧ r.env.options.contains "errexit" then exitShell r st else r
 
 def applyOps (sh : Shell) (ops : List Op) : Shell := ops.foldl applyOp sh
 
 /-! ## Snapshots (what the harness prints with real built-ins) -/
 
 def trackedConds : List (String × Nat) :=
-  [("EXIT", 0), ("INT", SIGINT), ("QUIT", SIGQUIT), ("TERM", SIGTERM), ("URG", SIGURG), ("USR1", SIGUSR1)]
+  [("EXIT", 0), ("INT", SIGINT), ("QUIT", SIGQUIT), ("TERM", SIGTERM), ("TSTP", Trap.SIGTSTP),
+   ("TTIN", Trap.SIGTTIN), ("TTOU", Trap.SIGTTOU), ("URG", SIGURG), ("USR1", SIGUSR1)]
 
 /-- the `trap` built-in without operands calls `TrapSet::peek_state` for every condition, which fills vacant
     entries from the system -/
@@ -451,19 +499,35 @@ def showSys (p : Proc) : String :=
   let ds := (trackedConds.filter (·.2 ≠ 0)).map fun c => c.1 ++ ":" ++ showDisp (p.sys.disp c.2)
   s!"cwd={Proto.encStr p.cwd} um={p.umask} fd={",".intercalate fds} d={",".intercalate ds}"
 
+/-- `jobs -l` (numbers of the listed jobs) and which of them `$!` designates -/
+def showJobs (j : Jobs) : String :=
+  let nums := j.list.map fun (e : Nat × Nat × Bool) => toString e.1
+  let last := match j.last with
+    | none => "-"
+    | some u => match j.list.find? (fun (e : Nat × Nat × Bool) => e.2.1 == u) with
+      | some e => s!"j{e.1}"
+      | none => "?"
+  s!"j={",".intercalate nums} !={last}"
+
 /-- the text of a snapshot taken in `env` (after the `trap` built-in has peeked) -/
 def showSnapshot (env : Env) : String :=
   let v := env.variables.vars.map showVar
   let f := env.functions.map fun kv => kv.1 ++ "=" ++ kv.2
   let a := env.aliases.map fun kv => kv.1 ++ "=" ++ kv.2
   let t := trackedConds.filterMap (showTrapLine env)
-  s!"v={",".intercalate v} f={",".intercalate f} a={",".intercalate a} o={",".intercalate env.options} u={env.system.umask} t={",".intercalate t} p={",".intercalate env.variables.params} {showSys env.system}"
+  s!"v={",".intercalate v} f={",".intercalate f} a={",".intercalate a} o={",".intercalate env.options} u={env.system.umask} t={",".intercalate t} p={",".intercalate env.variables.params} {showSys env.system} {showJobs env.jobs}"
 
-/-- take snapshot `tag` in a live process -/
-def snapshot (sh : Shell) (tag : String) : Shell :=
+/-- take snapshot `tag` in a live process; `withTrap = false`: the snapshot does not run the `trap` built-in
+    (no peeking, empty `t=`) -/
+def snapshotT (withTrap : Bool) (sh : Shell) (tag : String) : Shell :=
   if sh.halted.isSome then sh else
-  let env := peekAll sh.env
-  { sh with env := env, events := sh.events ++ [tag ++ "{" ++ showSnapshot env ++ "}"] }
+  if withTrap then
+    let env := peekAll sh.env
+    { sh with env := env, events := sh.events ++ [tag ++ "{" ++ showSnapshot env ++ "}"] }
+  else
+    { sh with events := sh.events ++ [tag ++ "{" ++ showSnapshot { sh.env with traps := [] } ++ "}"] }
+
+def snapshot (sh : Shell) (tag : String) : Shell := snapshotT true sh tag
 
 /-! ## The kinds of subshell (`yash-semantics`) -/
 
@@ -520,6 +584,14 @@ def finishKind (k : Kind) (out : Shell) (st : Nat) : Shell :=
   else if st ≠ 0 ∧ out.env.options.contains "errexit" then exitShell out st
   else { out with events := out.events ++ (if k == .subst then [s!"sub:0", s!"st:{st}"] else [s!"st:{st}"]) }
 
+/-- What the starting shell does *by itself* around a subshell of kind `k`, from its environment `env` as
+    restored after the fork: nothing for the synchronous kinds; an asynchronous list is remembered as a job and
+    becomes `$!`, the shell's own mutators between `&` and `wait` run, and `wait $!` removes the finished job. -/
+def parentSide (k : Kind) (env : Env) (during : List Op) : Shell :=
+  let e0 : Env := if k == .async then { env with jobs := env.jobs.add } else env
+  let p0 := applyOps { env := e0 } (if k == .async then during else [])
+  if k == .async then { p0 with env := { p0.env with jobs := p0.env.jobs.removeLast } } else p0
+
 /-- Runs `body` in a subshell of kind `k` started from the live shell `sh`; `during` are the parent's own
     mutators between `&` and `wait` (asynchronous lists only).  The child's output comes first in the
     event list of the result because the parent prints nothing until it has waited. -/
@@ -531,8 +603,7 @@ def runKind (copied : List (String × String)) (k : Kind) (sh : Shell) (body : S
   let childSh : Shell := r.2
   -- the child exits with its `$?` (`exit_or_raise`), or was killed
   let childStatus := childSh.halted.getD childSh.env.exitStatus
-  -- the parent's own mutators between `&` and `wait` run on the parent's environment as restored
-  let p := applyOps { env := r.1 } (if k == .async then during else [])
+  let p : Shell := parentSide k r.1 during
   let st := kindStatus k (p.env.options.contains "pipefail") childStatus
   let out : Shell := { env := { p.env with exitStatus := st }, halted := p.halted,
                        events := sh.events ++ childSh.events ++ p.events }
@@ -543,40 +614,68 @@ def runKind (copied : List (String × String)) (k : Kind) (sh : Shell) (body : S
 structure Case where
   pro : List Op
   kinds : List Kind
+  /-- mutators of the intermediate levels (level 1, level 2) before they start the next subshell -/
+  mid : List (List Op) := []
   child : List Op
   during : List Op
+  /-- `T:1` `/dev/tty` exists -/
+  tty : Bool := false
+  /-- `I:1` the internal dispositions of an interactive job-control shell are installed -/
+  internal : Bool := false
+  /-- `G:SIG` a signal inherited as ignored -/
+  ignored : Option Nat := none
+  /-- `Q:1` snapshot `B0` does not run `trap` -/
+  quiet : Bool := false
 
-def initialEnv : Env :=
-  { aliases := [], arg0 := "yash", builtins := [], exitStatus := 0, functions := [], jobs := ([], 0),
+def baseEnv : Env :=
+  { aliases := [], arg0 := "yash", builtins := [], exitStatus := 0, functions := [], jobs := {},
     mainPgid := 2, mainPid := 2, options := ["clobber", "exec", "glob", "log", "unset"], stack := [], traps := [], tty := none,
     variables := { vars := [("PWD", { value := "", exported := true })], params := [] }, any := [],
     system := { fds := [(0, { label := "in" }), (1, { label := "out" }), (2, { label := "err" })],
                 cwd := "", umask := defaultUmask,
                 sys := { disp := fun _ => .default, blocked := fun _ => false } } }
 
-/-- the innermost body: snapshot `C`, the child's mutators, snapshot `D` -/
-def innerBody (ops : List Op) (sh : Shell) : Shell :=
-  let r := snapshot (applyOps (snapshot sh "C") ops) "D"
+def initialEnv : Env := baseEnv
+
+/-- the environment the shell of a case starts with -/
+def startEnv (c : Case) : Env :=
+  let e0 := baseEnv
+  let sys0 : Sys := match c.ignored with
+    | some s => { e0.system.sys with disp := Trap.upd e0.system.sys.disp s .ignore }
+    | none => e0.system.sys
+  let st0 : Trap.State := { sys := sys0, traps := [] }
+  let st := if c.internal then Trap.enableStoppers (Trap.enableTerminators st0) else st0
+  { e0 with traps := st.traps, system := { e0.system with sys := st.sys, ttyAvail := c.tty } }
+
+/-- the innermost body: snapshot `C<d>`, the child's mutators, snapshot `D<d>` -/
+def innerBody (d : Nat) (ops : List Op) (sh : Shell) : Shell :=
+  let r := snapshot (applyOps (snapshot sh s!"C{d}") ops) s!"D{d}"
   -- the last command of the snapshot (`echo`) succeeds
   if r.halted.isSome then r else { r with env := { r.env with exitStatus := 0 } }
 
-def nestBody (copied : List (String × String)) (ops : List Op) : List Kind → Shell → Shell
-  | [], sh => innerBody ops sh
-  | k :: ks, sh => runKind copied k sh (nestBody copied ops ks) []
+/-- the body of the subshell of level `j` given the kinds still to be entered and the mutators of the
+    intermediate levels: `C<j>`, the level's mutators, `B<j>`, the next subshell, `A<j>` — or the innermost body -/
+def levelBody (copied : List (String × String)) (child : List Op) : Nat → List Kind → List (List Op) → Shell → Shell
+  | j, [], _, sh => innerBody j child sh
+  | j, k :: ks, mids, sh =>
+    let sB := snapshot (applyOps (snapshot sh s!"C{j}") (mids.headD [])) s!"B{j}"
+    let sS := runKind copied k sB (levelBody copied child (j + 1) ks mids.tail) []
+    let sA := snapshot sS s!"A{j}"
+    if sA.halted.isSome then sA else { sA with env := { sA.env with exitStatus := 0 } }
 
-/-- the whole program of a case: prologue, `B`, the subshell(s), `A`, EXIT trap of the shell itself -/
+/-- the whole program of a case: prologue, `B0`, the subshell(s), `A0`, EXIT trap of the shell itself -/
 def runCase (copied : List (String × String)) (c : Case) : Shell :=
-  let sh0 : Shell := { env := initialEnv }
-  let shB := snapshot (applyOps sh0 c.pro) "B"
+  let sh0 : Shell := { env := startEnv c }
+  let shB := snapshotT (!c.quiet) (applyOps sh0 c.pro) "B0"
   let shS := match c.kinds with
     | [] => shB
-    | k :: ks => runKind copied k shB (nestBody copied c.child ks) c.during
-  let shA := snapshot shS "A"
+    | k :: ks => runKind copied k shB (levelBody copied c.child 1 ks c.mid) c.during
+  let shA := snapshot shS "A0"
   runExitTrap shA
 
 /-- the observation line -/
 def observation (sh : Shell) : String :=
-  let isSnap (e : String) : Bool := e.startsWith "B{" || e.startsWith "C{" || e.startsWith "D{" || e.startsWith "A{"
+  let isSnap (e : String) : Bool := e.endsWith "}"
   let nsnap := (sh.events.filter isSnap).length
   -- the EXIT trap of the shell runs after `A`; the final process state is read after it
   let rest := String.ofList (List.replicate (nsnap - 1) '=')
